@@ -74,6 +74,11 @@ def gen(ctx):
             if traffic == "answer-at-deadline":
                 arr = [(D - 1, ("notif",)), (D, ("res", ("me",), 1))]
             out.append({"D": D, "me": "a", "cancel": None, "arrivals": arr, "has_cb": False})
+    # 2b. degenerate deadlines: a timeout of exactly 0 (and of one tick) is a deadline like any other
+    for D in (0, 1):
+        for arr in ([], [(-1, ("res", ("me",), 1))], [(0, ("res", ("me",), 1))], [(1, ("res", ("me",), 1))], [(30, ("res", ("me",), 1))],
+                    [(2, ("notif",)), (40, ("res", ("me",), 1))]):
+            out.append({"D": D, "me": "a", "cancel": None, "arrivals": arr, "has_cb": False})
     # 3. progress streams: matching / foreign tokens, missing fields (val 0), callback raising at each position
     for n in (1, 2, 3, 5):
         for raise_at in [None] + list(range(n)):
